@@ -5,7 +5,7 @@ import random
 import sys
 
 from common import standard_main, run_model, run_cli_many, run_cli_trickle, WORK, is_panic
-from callsets import render_vcf, bgzf_compress, vcf_to_bcf, model_records, model_samples, cli_samples_arg, model_project, cli_project_arg
+from callsets import render_vcf, bgzf_compress, vcf_to_bcf, bcf_encode_hts, model_records, model_samples, cli_samples_arg, model_project, cli_project_arg
 from gen_create import random_callset, random_map, pop_sizes, random_projection
 
 RULE = ("random diploid call sets (1-10 samples, 0-60 records) x sample maps x optional projection, each rendered as plain VCF, "
@@ -23,10 +23,13 @@ def check(rep, tier, seed):
     nsets = 6 if tier == "quick" else 40
     for k in range(nsets):
         cols, recs = random_callset(rng, nsamples=rng.randrange(1, 11), nrecords=rng.randrange(0, 61), p_skip=rng.choice([0.0, 0.15]))
-        recs = [[g if g != "." else "./." for g in r] for r in recs]          # noodles' BCF writer cannot encode a bare '.'
+        recs_nd = [[g if g != "." else "./." for g in r] for r in recs]       # noodles' BCF writer cannot encode a bare '.'
         sm = None if k % 4 == 0 else random_map(rng, cols)
         pr = None if k % 3 else random_projection(rng, pop_sizes(sm) if sm else [len(cols)])
-        vcf = render_vcf(cols, recs, extra_fields=(k % 2 == 0))
+        # a missing GT written '.', alone or next to other FORMAT values ('.:12:30'), stays as it is in the VCF forms and in
+        # the BCF forms laid out as htslib does (hand-written encoder); the forms that go through noodles' writer get './.'
+        vcf = render_vcf(cols, recs, extra_fields=(k % 2 == 0), dot_fields=(k % 4 == 0))
+        vcf_nd = render_vcf(cols, recs_nd, extra_fields=(k % 2 == 0))
         lines = vcf.split(b"\n")
         forms = {"vcf": vcf, "vcf.gz": bgzf_compress(vcf),
                  "vcf.gz-line-per-block": bgzf_compress(vcf, sizes=[len(l) + 1 for l in lines]),
@@ -35,7 +38,11 @@ def check(rep, tier, seed):
                  "vcf.gz-empty-first": bgzf_compress(vcf, sizes=[4000], empty_first=True),
                  "vcf.gz-first-1-byte": bgzf_compress(vcf, sizes=[1, 2, 5000]),
                  "vcf.gz-first-2-bytes": bgzf_compress(vcf, sizes=[2, 1, 1, 5000])}
-        raw = vcf_to_bcf(vcf, "c12_%d" % k, "raw")
+        hts = bcf_encode_hts(vcf)
+        forms["bcf-hts-raw"] = hts
+        forms["bcf-hts"] = bgzf_compress(hts)
+        forms["bcf-hts-tiny-blocks"] = bgzf_compress(hts, sizes=[33, 500, 9], empty_every=4)
+        raw = vcf_to_bcf(vcf_nd, "c12_%d" % k, "raw")
         if raw is not None:
             forms["bcf-raw"] = raw
             forms["bcf"] = bgzf_compress(raw)
@@ -43,7 +50,7 @@ def check(rep, tier, seed):
             forms["bcf-empty-first"] = bgzf_compress(raw, empty_first=True)
             forms["bcf-first-1-byte"] = bgzf_compress(raw, sizes=[1, 1, 1, 6000])
             forms["bcf-first-2-bytes"] = bgzf_compress(raw, sizes=[2, 3, 6000])
-            nb = vcf_to_bcf(vcf, "c12n_%d" % k, "bgzf")
+            nb = vcf_to_bcf(vcf_nd, "c12n_%d" % k, "bgzf")
             if nb is not None:
                 forms["bcf-noodles-bgzf"] = nb
         argv0 = ["create", "--precision", "6"] + cli_samples_arg(sm) + cli_project_arg(pr)
@@ -65,7 +72,7 @@ def check(rep, tier, seed):
         # stdin as a pipe that delivers its bytes in several writes: the first read() of the tool sees only 1, 2, 3, 20 or
         # 300 bytes (inside the gzip / BCF magic, inside the first BGZF block header, inside the first block)
         tjobs = []
-        for name in ("vcf", "vcf.gz", "vcf.gz-line-per-block", "bcf-raw", "bcf", "bcf-tiny-blocks"):
+        for name in ("vcf", "vcf.gz", "vcf.gz-line-per-block", "bcf-raw", "bcf", "bcf-tiny-blocks", "bcf-hts-raw", "bcf-hts"):
             if name not in forms:
                 continue
             data = forms[name]
